@@ -24,6 +24,10 @@ CLAIMS.update({
  "C10": ("Token-expiry clause only: a personal access token is expired exactly when now >= created + expiry (never for NeverExpire/ServerDefault), validity is monotone in time, and the replay-side test that drops expired tokens at restart agrees with the runtime test, for every creation instant, now and duration.",
          "PersonalAccessToken::{calculate_expiry_at,is_expired,raw}; clock unit conversion stubbed; everything else of C10 (bcrypt password checks, blake3 token digests, login decision table, secrets at rest, JWT) is NOT covered: it needs bcrypt/blake3 or a full System"),
 })
+CLAIMS.update({
+ "C11": ("What FileState::apply writes is what load_entries reads (1 and 2 entries, indices from 0, every header field equal, symbolic user ids and clock) through the real persister on the model file system; index bookkeeping under a failed append is decided too and IS violated (known finding `journalindex`: a failed journal write consumes an index, the next start-up fails with StateFileCorrupted) - the check prints KNOWN-FINDING for it and exits 0.",
+         "de-asynced twin; EntryCommand codec and the entry checksum function are stubbed (fixed 9-byte command frame, deterministic checksum stand-in), so tamper evidence under byte corruption is NOT claimed; concurrent applies not covered; fault model = the k-th file write returns Err"),
+})
 PENDING = {
  "C13": "harness file c13_codec.rs exists (8 command round trips) but CBMC exceeds 30 GB on the decoders' wire-length-dependent allocations; not registered until bounded",
  "C18": "harness file c18_dedup.rs exists (dedup branch of Partition::append_messages, 9 equality patterns) but does not finish within the cap; not registered",
